@@ -71,6 +71,14 @@ def dependent_ann(draw, knames, kinds=None):
     kinds = kinds or ["dep"] * 5 + ["lit"] * 4 + ["tup", "listof", "seqof", "mapof", "regexp",
                                                  "startswith", "endswith", "haskey", "dictof", "collof"]
     k = draw(st.sampled_from(kinds))
+    if k in ("lit", "regexp", "startswith") and draw(st.integers(0, 11)) == 0:
+        # a built-in value type under a bound that is itself value-dependent:
+        # Dependent[Dependent[str, short], Regexp['^a']], Dependent[Dependent[int, even], Literal[1, 2]]
+        if k == "lit":
+            return ["rebound", ["dep", ["cls", "int"], draw(st.sampled_from(["even", "pos", "big"]))],
+                    ["lit", draw(st.lists(st.sampled_from([0, 1, 2, 3, -1]), min_size=1, max_size=3, unique=True))]]
+        inner = ["regexp", draw(st.sampled_from(["^h", "a"]))] if k == "regexp" else ["startswith", draw(st.sampled_from(["h", "a"]))]
+        return ["rebound", ["dep", ["cls", "str"], draw(st.sampled_from(["short", "len2", "truthy"]))], inner]
     if k == "dep":
         pid = draw(st.sampled_from(sorted(S.PRED_IMPL)))
         b = draw(st.sampled_from(bounds_for(pid, knames)))
